@@ -98,8 +98,7 @@ StepOK ==
        /\ (a.op = "setitem" /\ exc = "ok" /\ a.c = -1 /\ a.v # -1) =>
               m1 = Override(m0, Append(a.path, FiberAt(prev, a.path).e[a.pos + 1][1]), a.v)
        /\ a.op = "fimul" => m1 = {x \in {<<y[1], IF IsPrefix(a.path, y[1]) THEN y[2] * a.v ELSE y[2]>> : y \in m0} : x[2] # 0}
-       /\ a.op = "updpayloads" => \A i \in 1..Len(FiberAt(prev, a.path).e) :
-              FiberAt(tree, a.path).e[i] = <<FiberAt(prev, a.path).e[i][1], Leaf(ValFn(a.fn, FiberAt(prev, a.path).e[i][2].v))>>
+       /\ a.op = "updpayloads" => m1 = {x \in {<<y[1], IF IsPrefix(a.path, y[1]) THEN ValFn(a.fn, y[2]) ELSE y[2]>> : y \in m0} : x[2] # 0}
        /\ a.op = "updcoords" => Cardinality(m1) = Cardinality(m0)
 
 =============================================================================
